@@ -60,6 +60,12 @@ class TransmissionModel(SimpleForwardModel):
                          atm_min_pressure,
                          atm_max_pressure)
         self.new_method = new_path_method
+
+    def write(self, output):
+        model = super().write(output)
+        model.write_scalar('new_path_method', self.new_method)
+        return model
+
     def compute_path_length_old(self, dz):
 
         dl = []
